@@ -94,17 +94,18 @@ class ModelResultsHandler:
         """
         Create final data frames of results
         """
+        def merge_estimands(x, y):
+            # per-estimand frames share their key columns (all group keys, e.g. also district for district
+            # offices, the reporting count and the unit category); everything else is named after the estimand
+            return pd.merge(x, y, how="inner", on=[col for col in x.columns if col in y.columns])
+
         for agg in self.aggregates:
-            merge_on = ["postal_code", "reporting", agg]
             # joins together dfs of the same level of aggregation (different estimands)
-            agg_df = reduce(lambda x, y: pd.merge(x, y, how="inner", on=merge_on), self.estimates[agg])
+            agg_df = reduce(merge_estimands, self.estimates[agg])
             self.final_results[VALID_AGGREGATES_MAPPING.get(agg)] = agg_df
         if self.include_unit_data:
-            merge_on = ["postal_code", "reporting", "geographic_unit_fips"]
             # joins together unit data dfs (for different estimands)
-            self.final_results["unit_data"] = reduce(
-                lambda x, y: pd.merge(x, y, how="inner", on=merge_on), self.unit_data.values()
-            )
+            self.final_results["unit_data"] = reduce(merge_estimands, self.unit_data.values())
 
     def add_national_summary_estimates(self, nat_sum_estimates_dict):
         df = pd.DataFrame(index=["margin"])
